@@ -809,4 +809,262 @@ theorem filterMap_getElem?_map {α β : Type} (f : α → β) (l : List α) (pos
     | none => simp [hp, ih]
     | some x => simp [hp, ih]
 
+/-! ## 6. the operators of `EnumArray` -/
+
+theorem bcastEq_same {α β} (f : α → β → Bool) (xs : List α) (ys : List β) (h : xs.length = ys.length) :
+    bcastEq f xs ys = .ok (List.zipWith f xs ys) := by
+  unfold bcastEq; rw [if_pos h]
+
+theorem bcastEq_length {α β} (f : α → β → Bool) (xs : List α) (ys : List β) (bs : List Bool)
+    (h : bcastEq f xs ys = .ok bs) : bcastLen xs.length ys.length = .ok bs.length := by
+  unfold bcastEq at h
+  unfold bcastLen
+  by_cases hl : xs.length = ys.length
+  · rw [if_pos hl] at h
+    cases h
+    rw [if_pos hl]; simp [hl]
+  · rw [if_neg hl] at h
+    rw [if_neg hl]
+    match ys, hl, h with
+    | [y], hl, h => cases h; simp
+    | [], hl, h =>
+      match xs, hl, h with
+      | [x], _, h => cases h; simp
+      | [], hl, _ => exact absurd rfl hl
+      | _ :: _ :: _, _, h => cases h
+    | _ :: _ :: _, hl, h =>
+      match xs, hl, h with
+      | [x], _, h => cases h; simp
+      | [], _, h => cases h
+      | _ :: _ :: _, _, h => cases h
+
+theorem foldl_max_mem (is : List Nat) (i : Nat) : is.foldl Nat.max i ∈ i :: is := by
+  induction is generalizing i with
+  | nil => simp
+  | cons j js ih =>
+    simp only [List.foldl_cons]
+    have := ih (Nat.max i j)
+    rcases List.mem_cons.mp this with h | h
+    · rw [h]
+      have hm : Nat.max i j = i ∨ Nat.max i j = j := by
+        show max i j = i ∨ max i j = j
+        omega
+      rcases hm with hm | hm <;> rw [hm] <;> simp
+    · exact List.mem_cons_of_mem _ (List.mem_cons_of_mem _ h)
+
+theorem foldl_max_ge (is : List Nat) (i : Nat) : i ≤ is.foldl Nat.max i ∧ ∀ j ∈ is, j ≤ is.foldl Nat.max i := by
+  induction is generalizing i with
+  | nil => simp
+  | cons j js ih =>
+    simp only [List.foldl_cons]
+    obtain ⟨h1, h2⟩ := ih (Nat.max i j)
+    refine ⟨Nat.le_trans (Nat.le_max_left i j) h1, ?_⟩
+    intro k hk
+    rcases List.mem_cons.mp hk with rfl | hk
+    · exact Nat.le_trans (Nat.le_max_right i k) h1
+    · exact h2 k hk
+
+/-- `max(self)` is an item of the array and bounds the others -/
+theorem maxIdx_spec (idx : List Nat) (mx : Nat) (h : maxIdx idx = some mx) :
+    mx ∈ idx ∧ ∀ j ∈ idx, j ≤ mx := by
+  cases idx with
+  | nil => cases h
+  | cons i is =>
+    simp only [maxIdx, Option.some.injEq] at h
+    subst h
+    refine ⟨foldl_max_mem is i, ?_⟩
+    intro j hj
+    rcases List.mem_cons.mp hj with rfl | hj
+    · exact (foldl_max_ge is j).1
+    · exact (foldl_max_ge is i).2 j hj
+
+theorem maxIdx_isSome (idx : List Nat) (h : idx ≠ []) : ∃ mx, maxIdx idx = some mx := by
+  cases idx with
+  | nil => exact absurd rfl h
+  | cons i is => exact ⟨_, rfl⟩
+
+theorem range_filter_le (n mx : Nat) (h : mx < n) :
+    (List.range n).filter (fun j => decide (j ≤ mx)) = List.range (mx + 1) := by
+  induction n with
+  | zero => omega
+  | succ n ih =>
+    rw [List.range_succ, List.filter_append]
+    by_cases hm : mx < n
+    · rw [ih hm]
+      have : ¬ n ≤ mx := by omega
+      simp [this]
+    · have hmn : mx = n := by omega
+      subst hmn
+      have hall : (List.range mx).filter (fun j => decide (j ≤ mx)) = List.range mx := by
+        apply List.filter_eq_self.mpr
+        intro j hj
+        have := List.mem_range.mp hj
+        simp; omega
+      rw [hall]
+      simp [List.range_succ]
+
+/-! ## 7. declarations with aliases -/
+
+theorem valueIndex?_some {vs : List Nat} {v i : Nat} (h : valueIndex? vs v = some i) : vs[i]? = some v := by
+  induction vs generalizing i with
+  | nil => cases h
+  | cons w ws ih =>
+    unfold valueIndex? at h
+    by_cases hw : w = v
+    · rw [if_pos hw] at h; cases h; simp [hw]
+    · rw [if_neg hw] at h
+      cases hj : valueIndex? ws v with
+      | none => rw [hj] at h; cases h
+      | some j =>
+        rw [hj] at h
+        simp only [Option.map_some, Option.some.injEq] at h
+        subst h
+        simpa using ih hj
+
+theorem valueIndex?_none {vs : List Nat} {v : Nat} (h : valueIndex? vs v = none) : v ∉ vs := by
+  induction vs with
+  | nil => simp
+  | cons w ws ih =>
+    unfold valueIndex? at h
+    by_cases hw : w = v
+    · rw [if_pos hw] at h; cases h
+    · rw [if_neg hw] at h
+      cases hj : valueIndex? ws v with
+      | some j => rw [hj] at h; cases h
+      | none =>
+        intro hm
+        rcases List.mem_cons.mp hm with hm | hm
+        · exact hw hm.symm
+        · exact ih hj hm
+
+/-- what holds of the class under construction after the bindings `bs` -/
+structure DeclInv (bs : List (String × Nat)) (st : DeclState) : Prop where
+  len : st.names.length = st.values.length
+  vnd : st.values.Nodup
+  mnames : st.members.map Prod.fst = bs.map Prod.fst
+  sub : ∀ nm ∈ st.names, nm ∈ bs.map Prod.fst
+  nnd : st.names.Nodup
+  canon : ∀ k nm, st.names[k]? = some nm → (nm, k) ∈ st.members
+  val : ∀ nm i, (nm, i) ∈ st.members → ∃ v, (nm, v) ∈ bs ∧ st.values[i]? = some v
+
+theorem declInv_init : DeclInv [] {} :=
+  ⟨rfl, List.nodup_nil, rfl, by simp, List.nodup_nil, by simp, by simp⟩
+
+theorem declInv_step {bs : List (String × Nat)} {st : DeclState} (h : DeclInv bs st) (b : String × Nat)
+    (hb : b.1 ∉ bs.map Prod.fst) : DeclInv (bs ++ [b]) (declStep st b) := by
+  obtain ⟨nm, v⟩ := b
+  unfold declStep
+  cases hv : valueIndex? st.values v with
+  | some i =>
+    simp only
+    refine ⟨h.len, h.vnd, by simp [h.mnames], ?_, h.nnd, ?_, ?_⟩
+    · intro n hn
+      have := h.sub n hn
+      simp only [List.map_append, List.mem_append]; exact Or.inl this
+    · intro k n hk
+      exact List.mem_append.mpr (Or.inl (h.canon k n hk))
+    · intro n j hj
+      rcases List.mem_append.mp hj with hj | hj
+      · obtain ⟨w, hw1, hw2⟩ := h.val n j hj
+        exact ⟨w, List.mem_append.mpr (Or.inl hw1), hw2⟩
+      · simp only [List.mem_singleton, Prod.mk.injEq] at hj
+        obtain ⟨rfl, rfl⟩ := hj
+        exact ⟨v, List.mem_append.mpr (Or.inr (by simp)), valueIndex?_some hv⟩
+  | none =>
+    simp only
+    have hvn := valueIndex?_none hv
+    refine ⟨by simp [h.len], ?_, by simp [h.mnames], ?_, ?_, ?_, ?_⟩
+    · exact List.nodup_append.mpr ⟨h.vnd, by simp, by
+        intro a ha b hb' hab
+        simp only [List.mem_singleton] at hb'
+        subst hb' hab
+        exact hvn ha⟩
+    · intro n hn
+      simp only [List.map_append, List.mem_append] at hn ⊢
+      rcases hn with hn | hn
+      · exact Or.inl (h.sub n hn)
+      · exact Or.inr (by simpa using hn)
+    · exact List.nodup_append.mpr ⟨h.nnd, by simp, by
+        intro a ha b hb' hab
+        simp only [List.mem_singleton] at hb'
+        subst hb' hab
+        exact hb (h.sub _ ha)⟩
+    · intro k n hk
+      by_cases hlt : k < st.names.length
+      · rw [List.getElem?_append_left hlt] at hk
+        exact List.mem_append.mpr (Or.inl (h.canon k n hk))
+      · rw [List.getElem?_append_right (by omega)] at hk
+        have hk0 : k - st.names.length = 0 := by
+          by_cases h0 : k - st.names.length = 0
+          · exact h0
+          · rw [List.getElem?_eq_none (by simp; omega)] at hk; cases hk
+        rw [hk0] at hk
+        simp only [List.getElem?_cons_zero, Option.some.injEq] at hk
+        subst hk
+        have : k = st.names.length := by omega
+        subst this
+        exact List.mem_append.mpr (Or.inr (by simp))
+    · intro n j hj
+      rcases List.mem_append.mp hj with hj | hj
+      · obtain ⟨w, hw1, hw2⟩ := h.val n j hj
+        refine ⟨w, List.mem_append.mpr (Or.inl hw1), ?_⟩
+        have hjl : j < st.values.length := by
+          rcases Nat.lt_or_ge j st.values.length with h' | h'
+          · exact h'
+          · rw [List.getElem?_eq_none h'] at hw2; cases hw2
+        show (st.values ++ [v])[j]? = some w
+        rw [List.getElem?_append_left hjl]; exact hw2
+      · simp only [List.mem_singleton, Prod.mk.injEq] at hj
+        obtain ⟨rfl, rfl⟩ := hj
+        refine ⟨v, List.mem_append.mpr (Or.inr (by simp)), ?_⟩
+        show (st.values ++ [v])[st.names.length]? = some v
+        rw [h.len, List.getElem?_append_right (by omega)]
+        simp
+
+theorem declInv_foldl (bs : List (String × Nat)) :
+    ∀ (bs0 : List (String × Nat)) (st : DeclState), DeclInv bs0 st → ((bs0 ++ bs).map Prod.fst).Nodup →
+      DeclInv (bs0 ++ bs) (bs.foldl declStep st) := by
+  induction bs with
+  | nil => intro bs0 st h _; simpa using h
+  | cons b bs ih =>
+    intro bs0 st h hnd
+    have hb : b.1 ∉ bs0.map Prod.fst := by
+      intro hm
+      simp only [List.map_append, List.map_cons] at hnd
+      have := (List.nodup_append.mp hnd).2.2 _ hm b.1 (by simp)
+      exact this rfl
+    have := ih (bs0 ++ [b]) (declStep st b) (declInv_step h b hb) (by simpa using hnd)
+    simpa using this
+
+theorem declInv_declare (bs : List (String × Nat)) (hnd : (bs.map Prod.fst).Nodup) :
+    DeclInv bs (declare bs) := by
+  have := declInv_foldl bs [] {} declInv_init (by simpa using hnd)
+  simpa [declare] using this
+
+theorem nodup_fst_unique {l : List (String × Nat)} (h : (l.map Prod.fst).Nodup) {a : String} {x y : Nat}
+    (hx : (a, x) ∈ l) (hy : (a, y) ∈ l) : x = y := by
+  induction l with
+  | nil => cases hx
+  | cons p ps ih =>
+    simp only [List.map_cons, List.nodup_cons] at h
+    rcases List.mem_cons.mp hx with hx | hx <;> rcases List.mem_cons.mp hy with hy | hy
+    · have := hx.trans hy.symm; injection this
+    · rw [← hx] at h; exact absurd (List.mem_map.mpr ⟨(a, y), hy, rfl⟩) h.1
+    · rw [← hy] at h; exact absurd (List.mem_map.mpr ⟨(a, x), hx, rfl⟩) h.1
+    · exact ih h.2 hx hy
+
+theorem find?_fst_of_mem {l : List (String × Nat)} (h : (l.map Prod.fst).Nodup) {a : String} {x : Nat}
+    (hx : (a, x) ∈ l) : l.find? (fun m => m.1 = a) = some (a, x) := by
+  cases hf : l.find? (fun m => m.1 = a) with
+  | none =>
+    have := List.find?_eq_none.mp hf (a, x) hx
+    simp at this
+  | some q =>
+    have hq := List.mem_of_find?_eq_some hf
+    have hqa : q.1 = a := by simpa using List.find?_some hf
+    obtain ⟨qa, qi⟩ := q
+    simp only at hqa
+    subst hqa
+    rw [nodup_fst_unique h hq hx]
+
 end OFCore.EnumCodec
